@@ -105,3 +105,4 @@ func checkSubrSource(w *World, r *Report, fn *ssa.Function) {
 		}
 	}
 }
+
